@@ -1158,10 +1158,11 @@ def replay_group(job):
                 res['bad'] = {'step': k, 'expected': [alts[j][k] for j in live][:4], 'observed': obs[k],
                               'diff': _diff([alts[j][k] for j in live], obs[k]), 'outcome': outs[k],
                               'start_error': rp.w.start_error, 'obs': obs}
-                if obs[k]['alive'] and obs[k]['target']['k'] == 'json' and 'target' in res['bad']['diff']:
-                    # which datatypes are not (correctly) in the file although the save completed
+                if obs[k]['target']['k'] == 'json' and 'target' in res['bad']['diff']:
+                    # which datatypes are not in the file although the save got as far as the rename
+                    want = [alts[j][k]['target'] for j in live if alts[j][k]['target']['k'] == 'json']
                     ns = sorted({types[int(P[1:]) - 1] for P, e in obs[k]['target']['ent'].items()
-                                 if e == '-' and obs[k]['val'][P] != '-'})
+                                 if e == '-' and want and all(t['ent'][P] != '-' for t in want)})
                     if ns:
                         res['bad']['notstored'] = ns
                 best = -1
